@@ -1,6 +1,6 @@
 (* C06 — node in-use accounting matches the registered pipelines. *)
 From Coq Require Import List NArith Arith.
-From Verif Require Import Alist Broker BrokerProofs BrokerClose BrokerExamples.
+From Verif Require Import Alist Broker BrokerProofs BrokerClose BrokerExamples Run_Broker RunBrokerSound.
 Import ListNotations.
 
 (* after every history (any close-failure oracle) the reference count of every registered node is the number of
@@ -67,3 +67,13 @@ Proof. exact fresh_history_closes. Qed.
 Theorem C06_nonvacuous :
   map (fun kv => (fst kv, nu_rc (snd kv))) (b_nodes (run nocf h1)) = [(1%N, 2%nat); (2%N, 3%nat); (3%N, 3%nat)].
 Proof. exact rc_values. Qed.
+
+(* the tie: what the correspondence check's verdict means.  The check evaluates [mismatches] on the histories the real Broker
+   produced and requires []; that holds exactly when every observed history is an execution of this model (each call's result,
+   error flag, closes and registry snapshot, and each Reopen's visits, are the model's) and meets the observation-only
+   oracles - so the theorems above speak about the observed histories, and nothing the model can produce is rejected. *)
+Theorem C06_verdict_is_model_execution : forall cs,
+  mismatches cs = [] <->
+  Forall (fun c => accepted (c_close_fails c) (c_non_closers c) b0 (c_steps c) /\ oracles_ok None [] (c_steps c)) cs.
+Proof. exact mismatches_nil_iff. Qed.
+Print Assumptions C06_verdict_is_model_execution.
